@@ -309,6 +309,81 @@ def steps(case, rng, cls, faces, meta, g, m):
         {'mode': mode, 'scheme': scheme, 'periodic_axes': periodic, 'steps': nsteps, 'field': ffam}, ffam != 'const', None
 
 
+def reconfig(case, rng, cls, faces, meta, g, m):
+    """closed-system history whose boundary conditions are reconfigured AFTER the variable exists, one side at a time,
+    through the public setters: walls -> one axis periodic (flag on one side only) with through-flow, or an open
+    Dirichlet side closed by defaultNoFlux(); every later step must conserve the integral"""
+    from ..oracles import AXKIND
+    cov, maxerr, bad = {}, {}, []
+    V = np.asarray(m.cellvolume, dtype=float)
+    W = g.vol_midpoint() if cls == 'SphericalGrid3D' else None
+    rows = interior_index(g.dims)
+    capable = [k for k in range(g.nd) if AXKIND[cls][k] in ('len', 'ang') and abs(g.w[k][0] - g.w[k][-1]) <= 1e-12 * g.w[k][0]]
+    mode = case['mode']
+    if mode == 'to-periodic' and not capable:
+        mode = 'close-dirichlet'
+    vals, ffam = gen.cell_field(rng, g.dims, 'random')
+    D, _ = gen.face_arrays(rng, g, 'random', positive=True)
+    u, _ = gen.face_arrays(rng, g, 'sign')
+    u = [0.3 * a for a in u]
+    for k in range(g.nd):
+        idx = [slice(None)] * g.nd
+        idx[k] = [0, -1]
+        u[k][tuple(idx)] = 0.0
+    phi = pf.CellVariable(m, vals.copy())           # default no-flux walls
+    k = int(rng.choice(capable)) if mode == 'to-periodic' else int(rng.integers(0, g.nd))
+    j = int(rng.integers(0, 2))
+    side = SIDES[k][j]
+    if mode == 'close-dirichlet':
+        getattr(phi.BCs, side).fixedValue(float(rng.normal()))      # open system first
+    Df = gen.facevar(pf, m, D)
+    worst, msg = 0.0, None
+    with np.errstate(all='ignore'):
+        for step in range(4):
+            if step == 1:
+                if mode == 'to-periodic':
+                    getattr(phi.BCs, side).periodic = True           # one flag only
+                    make_periodic_compatible(D, [k])
+                    idx = [slice(None)] * g.nd
+                    idx[k] = [0, -1]
+                    u[k][tuple(idx)] = float(rng.choice([-1.0, 1.0]) * rng.uniform(0.1, 0.5))   # through-flow across the periodic boundary
+                    Df = gen.facevar(pf, m, D)
+                else:
+                    getattr(phi.BCs, side).defaultNoFlux()
+            uf = gen.facevar(pf, m, u)
+            dt = float(10 ** rng.uniform(-3, 1))
+            I0 = phi.domainIntegral()
+            own0 = float((W * phi.value).sum()) if W is not None else None
+            spy = SpySolver()
+            pf.solvePDE(phi, [pf.transientTerm(phi, dt, 1.0), -pf.diffusionTerm(Df), pf.convectionTerm(uf)], externalsolver=spy)
+            Mx, b, x = spy.last
+            if not np.all(np.isfinite(phi.value)):
+                return None, cov, maxerr, 'reconfig', {}, False, 'non-finite solution'
+            if step == 0 and mode == 'close-dirichlet':
+                continue                                           # still open
+            A = sp.csr_array(Mx).copy()
+            A.data = np.abs(A.data)
+            rowscale = (A @ np.abs(x) + np.abs(b))[rows].reshape(g.dims)
+            tol = 1e-9 * dt * float((V * rowscale).sum())
+            dI = abs(phi.domainIntegral() - I0)
+            worst = max(worst, dI / tol * 1e-9 if tol > 0 else 0.0)
+            own_ok = False
+            if W is not None:
+                own_ok = abs(float((W * phi.value).sum()) - own0) <= 1e-9 * dt * float((W * rowscale).sum())
+            if dI > tol and msg is None and not own_ok:
+                msg = 'after reconfiguring side %s (%s) on an existing variable, step %d: domainIntegral changed by %.3g (allowed %.3g)' % (side, mode, step + 1, dI, tol)
+            elif dI > tol and own_ok and msg is None:
+                msg = 'KNOWN'
+    maxerr['reconfig'] = worst
+    cov['reconfig:%s' % mode] = 1
+    cov['reconfig_side:%s' % side] = 1
+    if msg == 'KNOWN':
+        bad.append((KEY_SPH, 'SphericalGrid3D measure mismatch in a reconfigured closed system'))
+    elif msg:
+        bad.append(('reconfig/%s' % mode, msg))
+    return bad, cov, maxerr, 'reconfig/%s/%s' % (mode, side), {'mode': mode, 'side': side}, True, None
+
+
 def open_system(case, rng, cls, faces, meta, g, m):
     """one implicit step with open (Dirichlet/Robin) sides: change of the integral = dt * net inflow through the
     boundary faces, evaluated from the solved field with the oracle's areas"""
@@ -376,7 +451,7 @@ def run_case(case):
     nd = NDIM[cls]
     kind = case['kind']
     fam = case.get('family')
-    if kind == 'steps' and case.get('periodic', True) and fam is None:
+    if kind in ('steps', 'reconfig') and case.get('periodic', True) and fam is None:
         fam = str(rng.choice(['uniform', 'symmetric', 'random']))
     nmax = case.get('nmax', (4 if nd < 3 else 3) if kind == 'tel' else (6 if nd < 3 else 4))
     faces, meta = gen.gen_grid(rng, cls, nmin=1, nmax=nmax, family=fam)
@@ -387,6 +462,8 @@ def run_case(case):
         bad, cov, maxerr, k2, extra, nontrivial = telescoping(case, rng, cls, faces, meta, g, m)
     elif kind == 'steps':
         bad, cov, maxerr, k2, extra, nontrivial, note = steps(case, rng, cls, faces, meta, g, m)
+    elif kind == 'reconfig':
+        bad, cov, maxerr, k2, extra, nontrivial, note = reconfig(case, rng, cls, faces, meta, g, m)
     else:
         bad, cov, maxerr, k2, extra, nontrivial, note = open_system(case, rng, cls, faces, meta, g, m)
     cov['kind:%s:%s' % (kind, cls)] = 1
@@ -428,6 +505,10 @@ def plan(tier, seed):
             for rep in range(3 if q else 60):
                 cases.append({'cls': cls, 'kind': 'open', 'scheme': scheme, 'seed': [seed, 1, ci, i]})
                 i += 1
+        for mode in ('to-periodic', 'close-dirichlet'):
+            for rep in range(8 if q else 120):
+                cases.append({'cls': cls, 'kind': 'reconfig', 'mode': mode, 'seed': [seed, 1, ci, i]})
+                i += 1
         step = 12 if NDIM[cls] == 3 else 35
         for j in range(0, len(cases), step):
             chunks.append(cases[j:j + step])
@@ -443,7 +524,7 @@ def floors(agg, tier):
         for kind, need in (('steps', 20), ('open', 6)):
             if agg['cov'].get('kind:%s:%s' % (kind, cls), 0) < need:
                 out.append('kind:%s:%s < %d' % (kind, cls, need))
-    for k in ('closure:periodic', 'closure:walls', 'steps:implicit:upwind+tvd', 'steps:explicit:central'):
+    for k in ('closure:periodic', 'closure:walls', 'steps:implicit:upwind+tvd', 'steps:explicit:central', 'reconfig:to-periodic', 'reconfig:close-dirichlet'):
         if agg['cov'].get(k, 0) < 10:
             out.append('%s < 10' % k)
     return out
